@@ -11,6 +11,7 @@ from __future__ import annotations
 
 import ast
 import copy
+import os
 from typing import Any, Callable, Dict, List, Optional, Tuple
 
 import z3
@@ -66,6 +67,35 @@ def py_floordiv(a, b):
     q = a / b        # SMT-LIB div on Int terms
     m = a % b
     return z3.If(b > 0, q, z3.If(m == 0, q, q - 1))
+
+
+_Z3OP_IDS: Dict[str, int] = {}
+_Z3_PRED_KIND: Dict[str, str] = {}
+Z3_PY = os.environ.get("PYVC_Z3_PY", "/venv/lib/python3.12/site-packages/z3/z3.py")
+
+
+def z3op_id(name: str) -> int:
+    """abstract head-symbol category of a z3 term: one integer per distinct Z3_OP_* name (and per value
+    category such as VALUE:is_int_value); only equality between categories is ever used"""
+    if name not in _Z3OP_IDS:
+        _Z3OP_IDS[name] = 1000 + len(_Z3OP_IDS)
+    return _Z3OP_IDS[name]
+
+
+def z3_pred_kind(pred: str) -> str:
+    """the Z3_OP_* constant that the repo's own z3.is_<x>(a) tests (read from the z3 package the repo runs with:
+    `def is_mod(a): return is_app_of(a, Z3_OP_MOD)`); predicates that are not of this shape are value categories"""
+    if not _Z3_PRED_KIND:
+        import re as _re
+        try:
+            src = open(Z3_PY, encoding="utf-8").read()
+        except OSError:
+            src = ""
+        for m in _re.finditer(r"^def (is_\w+)\(a\):\n((?:    .*\n|\n)+)", src, _re.M):
+            body = m.group(2)
+            k = _re.search(r"return is_app_of\(a, (Z3_OP_\w+)\)", body)
+            _Z3_PRED_KIND[m.group(1)] = k.group(1) if k else "VALUE:" + m.group(1)
+    return _Z3_PRED_KIND.get(pred, "VALUE:" + pred)
 
 
 class VariantSet:
@@ -843,6 +873,13 @@ class Engine:
     def ev_Attribute(self, node, st):
         if isinstance(node.value, ast.Name) and node.value.id == "operator" and "operator" not in st.env:
             return VFunc(builtin="operator." + node.attr, name="operator." + node.attr)
+        if isinstance(node.value, ast.Name) and node.value.id == "z3" and "z3" not in st.env:
+            # model of the z3 term-inspection API (ASSUMED, listed): head-symbol categories
+            if node.attr.startswith("Z3_OP_"):
+                return VInt(z3op_id(node.attr))
+            if node.attr.startswith("is_"):
+                return VFunc(builtin="z3." + node.attr, name="z3." + node.attr)
+            raise Unsupported(f"z3.{node.attr}")
         if isinstance(node.value, ast.Name) and node.value.id in self.reg.records and node.value.id not in st.env:
             cls = node.value.id
             const = self.class_const(cls, node.attr)
@@ -1174,6 +1211,8 @@ class Engine:
             if which == "uf_sort" and rng.name() in self.reg.records:
                 return VRec(rng.name(), app)
             return VBool(app) if which == "uf_bool" else VInt(app) if which == "uf_int" else VAny(app)
+        if isinstance(node.func, ast.Name) and node.func.id == "z3op" and len(node.args) == 1 and isinstance(node.args[0], ast.Constant):
+            return VInt(z3op_id(node.args[0].value))
         if isinstance(node.func, ast.Name) and node.func.id == "uf_str" and node.args and isinstance(node.args[0], ast.Constant):
             # string-valued uninterpreted function of the specification (e.g. the string of a tree)
             zs = []
@@ -1361,6 +1400,13 @@ class Engine:
         if f.builtin:
             if f.builtin.startswith("spec:"):
                 return self.apply_spec(self.reg.specs[f.builtin[5:]], args)
+            if f.builtin.startswith("z3.is_"):
+                if len(args) != 1 or not isinstance(args[0], VRec) or args[0].cls != "Z3Expr":
+                    raise Unsupported(f"{f.builtin} on a value that is not a modelled z3 term")
+                note = "z3.is_<x>(e) modelled as a test of e's head-symbol category (the Z3_OP constant read from the repo's z3.py)"
+                if note not in self.dropped: self.dropped.append(note)
+                kind = z3_pred_kind(f.builtin[3:])
+                return VBool(self.as_int(self.read_field(args[0], "op", st.heap)) == z3op_id(kind))
             return BUILTINS[f.builtin](self, args, kwargs, st, lineno)
         if f.node is not None:
             return self.inline(f, args, st, lineno)
@@ -1421,6 +1467,7 @@ class Engine:
         function plus its defining axiom (quantified over the arguments)."""
         zargs = []
         fixed = []          # sequence-valued arguments are fixed parameters of the function symbol
+        args = [a.val if isinstance(a, VOpt) else a for a in args]     # None-ness is the caller's business
         for a in args:
             if isinstance(a, (VRec, VAny, VInt, VBool, VNStr)):
                 zargs.append(a.t)
@@ -1943,7 +1990,11 @@ class Engine:
             outs = self.exec_block(body, st)
         final: List[Outcome] = []
         open_end = bool(c.fragment) and c.fragment.get("rule") in ("until_stmt", "between_stmts")
+        ends_answering = bool(c.fragment) and c.fragment.get("rule") == "guard_prefix"
         for o in outs:
+            if o.kind == "fall" and ends_answering:
+                o = Outcome("return", o.st, VOpt(z3.BoolVal(False), self.fac.mk(TAny(), fresh_name("answer"))),
+                            lineno=getattr(node, "end_lineno", 0))
             if o.kind == "fall" and open_end:
                 # the fragment stops before the end of the function: a path running off its end is outside this
                 # obligation set, so it must be infeasible under the pre-condition
@@ -2025,6 +2076,18 @@ def select_fragment(fnode, frag: Dict[str, Any], eng: Engine) -> List[ast.stmt]:
         eng.dropped.append(f"fragment until_stmt: statements from `{frag['starts_with']}` on are not part of this "
                            "obligation set (a path reaching them must be infeasible under the contract's pre-condition)")
         return out
+    if rule == "guard_prefix":
+        # the leading statements up to and including the first `if <guard>: return Nothing`; a path leaving the
+        # fragment at its end stands for "the function goes on to answer" (end_returns)
+        out = []
+        for st_ in fnode.body:
+            out.append(st_)
+            if isinstance(st_, ast.If) and len(st_.body) == 1 and isinstance(st_.body[0], ast.Return) \
+                    and isinstance(st_.body[0].value, ast.Name) and st_.body[0].value.id == "Nothing" and not st_.orelse:
+                eng.dropped.append(f"fragment guard_prefix: only the applicability guard (L{st_.lineno}) is part of this "
+                                   "obligation set; statements after it are abstracted as `answers`")
+                return out
+        raise Unsupported("fragment guard_prefix: no `if ...: return Nothing` guard found")
     if rule == "between_stmts":
         out, on, hit = [], False, False
         for st_ in fnode.body:
